@@ -686,7 +686,7 @@ def model_cases(run, rnd):
             cid = f"model/chain/{ti}/{n}"
             yield cid, ("chain", ti, n), (lambda names=names, cid=cid: model_chain_case(run, cid, names, rnd))
     # F10 random mixtures
-    for i in range(1500 if thorough else 60):
+    for i in range(1500 if thorough else 200):
         cid = f"model/random/{run.seed}/{i}"
 
         def rand_case(i=i, cid=cid):
@@ -1203,7 +1203,11 @@ def world_cases(run, rnd):
                     if kind == 3:
                         w.create(fmts=fm, extra=["-n"], creator=cr, dirhash=False)
                     elif kind == 4:
-                        w.create(fmts=fm, extra=["-sf", os.path.join(w.root, "A", "a.txt"), "-sf", os.path.join(w.root, "c.txt"), "-sf", os.path.join(w.root, "c.txt")], creator=cr, dirhash=False)
+                        if variant == "plain":
+                            w.create(fmts=fm, extra=["-sf", os.path.join(w.root, "A", "a.txt"), "-sf", os.path.join(w.root, "c.txt"), "-sf", os.path.join(w.root, "c.txt")], creator=cr, dirhash=False)
+                        else:  # relative spellings, cwd is not the root
+                            rn = os.path.basename(w.root)
+                            w.create(fmts=fm, extra=["-sf", os.path.join(rn, "A", "a.txt"), "-sf", os.path.join(rn, "A", "deep", "..", "deep", "x.bin"), "-sf", os.path.join(".", rn, "c.txt")], creator=cr, dirhash=False, arg=rn, cwd=w.tmp)
                     elif kind == 5:
                         # same size, same mtime, other content: a failed generation
                         p = os.path.join(w.root, "B", "b.txt")
@@ -1436,7 +1440,7 @@ def main():
         bound="text pool of 42 strings without control characters (blanks, NFC/NFD, XML-special, ]]>, entity look-alikes, U+2028/2029, "
         "BOM, bidi, astral, 240 chars) in every text position; all 63 format subsets x action rotations; sizes 0..10^30; 16 instants x 6 "
         "POSIX TZ strings incl. repeated hours + 6 explicit offsets; 0..3 authors x field masks; 0..20 patterns; 0..3 references; chain "
-        "of 1..13 entries; 0..300 records; 60 random mixtures (quick) | larger in every dimension (thorough); worlds: 12 trees (<= 60 "
+        "of 1..13 entries; 0..300 records; 200 random mixtures (quick) | larger in every dimension (thorough); worlds: 12 trees (<= 60 "
         "entries) x nested placements (<= 3 levels) x format sets x 5 root spellings, 12-generation histories (25/40 thorough) with -n, "
         "-sf, failed, -i/-ii/negation, -dr, flatten; 6 time zones; create killed at write event k (6 values quick, 59 thorough)",
     )
